@@ -46,8 +46,23 @@ def seeds():
     out.append('')
     out.append('%d seeded changes kept, %d detected by the check of their property (or a named sibling check).'%(n,d))
     return '\n'.join(out)
+def neutral():
+    out=['| control | kind of edit | what was restructured | check verdict | alarms (rule instances), if any |','|---|---|---|---|---|']
+    n=ok=0
+    for dd in sorted(glob.glob(V+'/neutral/C*-N?')):
+        if not os.path.exists(dd+'/meta.json'): continue
+        m=json.load(open(dd+'/meta.json'))
+        v=m.get('verified')
+        if not v: continue
+        n+=1
+        silent=all(x.endswith('rc=0') for x in v.get('checks',[])) and v.get('checks')
+        ok+=1 if silent else 0
+        out.append('| %s | %s | %s | %s | %s |'%(os.path.basename(dd),(m.get('kind') or '')[:60].replace('|','¦'),(m.get('summary') or '')[:260].replace('|','¦').replace('\n',' '),'silent' if silent else '**FALSE ALARM**','; '.join('`'+a.replace('|','¦')[:80]+'`' for a in v.get('alarms',[])[:3])))
+    out.append('')
+    out.append('%d negative controls run, %d silent.'%(n,ok))
+    return '\n'.join(out)
 s=open(V+'/DESIGN.md').read()
-for tag,fn in (('FINDINGS',findings),('ASBUILT',asbuilt),('SEEDS',seeds)):
+for tag,fn in (('FINDINGS',findings),('ASBUILT',asbuilt),('SEEDS',seeds),('NEUTRAL',neutral)):
     b='<!-- BEGIN %s -->'%tag; e='<!-- END %s -->'%tag
     if b in s:
         s=s[:s.index(b)+len(b)]+'\n'+fn()+'\n'+s[s.index(e):]
